@@ -214,7 +214,8 @@ def build_region(r):
                 r.out_text = r.body
                 r.changed = False
             else:
-                merged = merge.merge3(base, ann, cur)
+                r.dropped = []
+                merged = merge.merge3(base, ann, cur, r.dropped)
                 back = erase.erase(merged)
                 if back != cur:
                     raise Inconclusive("erasure check failed after merge for %s:\n%s" % (r.name, _tokdiff(back, cur)))
@@ -255,7 +256,13 @@ def build_region(r):
                 r.changed = True
                 r.diff = _tokdiff(base, cur)
                 if ann[:2] == ["pub", "exec"] or ann[:1] == ["exec"]:
-                    merged = merge.merge3(base, ann, cur)
+                    # exec const N: T ensures .. { INIT }: keep the annotated header, take the initialiser from /repo
+                    k = 0
+                    while k < len(ann) and ann[k] not in erase.SPEC_KW:
+                        k += 1
+                    b = erase._skip_to_body(ann, k)
+                    eq = cur.index("=")
+                    merged = ann[:b + 1] + cur[eq + 1:-1] + ["}"]
                     if erase.erase(merged) != cur:
                         raise Inconclusive("erasure check failed for const " + name)
                     r.out_text = lex.render(merged)
